@@ -70,6 +70,7 @@ def entity_record(e, ws) -> dict:
     par = getattr(e, "parent", None)
     rec = {
         "cls": type(e).__name__,
+        "kind": "data" if hasattr(type(e), "values") else ("object" if hasattr(type(e), "add_data") else "group"),
         "parent": None if par is None else str(par.uid),
         "parent_is_root": par is not None and par is ws.root,
     }
